@@ -147,9 +147,9 @@ func cmdWorker(args []string) int {
 		}
 		// minimise, attribute again on the minimised trace, write the replay file
 		dl := time.Now().Add(60 * time.Second)
-		small := sim.Shrink(tr, v.Class, 4000, dl)
+		small := sim.Shrink(tr, v.Signature(), 4000, dl)
 		v2, e2 := sim.RunTrace(small, true)
-		if v2 == nil || v2.Class != v.Class {
+		if v2 == nil || v2.Signature() != v.Signature() {
 			small = tr
 			v2, e2 = sim.RunTrace(small, true)
 		}
